@@ -30,7 +30,7 @@ func funcKey(fn *ssa.Function) string {
 	if fn == nil {
 		return "?"
 	}
-	s := fn.String()
+	s := stripTypeArgs(fn.String())
 	// (*metacontroller/pkg/x/y.T).M -> y.T.M ; metacontroller/pkg/x/y.F -> y.F
 	s = strings.ReplaceAll(s, "(*", "")
 	s = strings.ReplaceAll(s, "(", "")
@@ -56,7 +56,25 @@ func calleeNames(key string) []string {
 	return out
 }
 
+// stripTypeArgs removes generic instantiation arguments: Cache[a/b.K,*c.V] -> Cache
+func stripTypeArgs(s string) string {
+	var b strings.Builder
+	d := 0
+	for _, c := range s {
+		switch {
+		case c == '[':
+			d++
+		case c == ']':
+			d--
+		case d == 0:
+			b.WriteRune(c)
+		}
+	}
+	return b.String()
+}
+
 func funcKeyStr(s string) string {
+	s = stripTypeArgs(s)
 	s = strings.ReplaceAll(s, "(*", "")
 	s = strings.ReplaceAll(s, "(", "")
 	s = strings.ReplaceAll(s, ")", "")
@@ -140,7 +158,7 @@ func (e *Exec) execCall(f *Frame, b *ssa.BasicBlock, instr ssa.Instruction, c *s
 		}
 		if fn := c.StaticCallee(); fn != nil {
 			cc.fn = fn
-			cc.key = fn.String()
+			cc.key = stripTrailingTypeArgs(fn.String())
 			if mc, ok := c.Value.(*ssa.MakeClosure); ok {
 				cv := e.val(f, mc)
 				cc.args = append(cc.args[:0:0], cc.args...)
@@ -354,7 +372,9 @@ func (e *Exec) callFunction1(cc *callCtx, fn *ssa.Function, bindings []Val, resu
 	}
 	// 4. unknown external: pure function of its arguments (listed as an assumption)
 	e.assumes["default-pure:"+cc.key] = true
-	e.setResult(f, result, e.uninterp("ext_"+cleanSym(funcKeyStr(cc.key)), cc.args, cc.resT))
+	dv := e.uninterp("ext_"+cleanSym(funcKeyStr(cc.key)), cc.args, cc.resT)
+	e.wellFormedResult(dv)
+	e.setResult(f, result, dv)
 }
 
 func (e *Exec) packResult(resT types.Type, rets []Val) Val {
@@ -705,10 +725,11 @@ func (e *Exec) callByContract(cc *callCtx, fn *ssa.Function, ctr *FuncContract, 
 		if err != nil {
 			panic(fmt.Sprintf("fatal: contract of %s: ensures %s: %v", ctr.Name, cl.Text, err))
 		}
-		e.assume(t, "")
+		// a postcondition is known only on executions that make this call
+		e.assume(Implies(cc.reach, t), "")
 	}
 	for _, gi := range e.allGlobalInvs(pre, cc.st) {
-		e.assume(gi.term, "package invariant after call")
+		e.assume(Implies(cc.reach, gi.term), "package invariant after call")
 	}
 	if ctr.Trusted {
 		e.assumes["trusted in-repo contract: "+ctr.Pkg+"."+ctr.Name+" ("+ctr.TrustedWhy+")"] = true
@@ -1072,4 +1093,41 @@ func sourceNameOf(v ssa.Value) string {
 		}
 	}
 	return v.Name()
+}
+
+// stripTrailingTypeArgs: "(*p.T[A, B]).M[A B]" -> "(*p.T[A, B]).M" (instantiation suffix of generic methods/functions
+// is kept only when it is the sole type-argument list, e.g. "p.F[int]").
+func stripTrailingTypeArgs(s string) string {
+	if !strings.HasSuffix(s, "]") {
+		return s
+	}
+	i := strings.LastIndex(s, "[")
+	if i < 0 {
+		return s
+	}
+	if strings.Contains(s[:i], "[") {
+		return s[:i]
+	}
+	return s
+}
+
+// wellFormedResult: slices returned by unmodelled functions are well-formed slices.
+func (e *Exec) wellFormedResult(v Val) {
+	if len(v.Tup) > 0 {
+		for _, x := range v.Tup {
+			e.wellFormedResult(x)
+		}
+		return
+	}
+	if v.Term == "" {
+		return
+	}
+	if _, ok := unalias(v.T).Underlying().(*types.Slice); ok {
+		e.assume(And(app(">=", app("s_len", v.Term), "0"), app(">=", app("s_off", v.Term), "0"), app(">=", app("s_cap", v.Term), app("s_len", v.Term)), app(">=", app("s_base", v.Term), "0")), "")
+	}
+	if isRefLike(v.T) {
+		if _, isSig := unalias(v.T).Underlying().(*types.Signature); !isSig {
+			e.assume(app(">=", v.Term, "0"), "")
+		}
+	}
 }
